@@ -19,3 +19,7 @@ Check (C18_title_item_roundtrip : (forall title : bytes,
                  item_text (Box T_cnam p kids) = Some title)%type).
 Check (C18_no_user_data_iff_neither_title_nor_time : (forall m,
   build_udta_box m = [] <-> (md_title m = None /\ md_creation_time m = None))%type).
+Check (C18_finished_file_metadata_is_faithful : (forall b m0 ops m rs s,
+  build b [] = inl m0 -> run m0 ops = (m, rs) -> In (RStats s) rs ->
+  Forall op_payload_ok ops -> len (sink_of m) < 4294967296 ->
+  check_C18 b ops (map class_of rs) (sink_of m) = true)%type).
